@@ -186,6 +186,18 @@ CLAIMS = {
             "URL-escaped characters are not downloadable over file:// (D14). Round-trip equality of "
             "content is not decided.",
             "DESIGN.md §4 C10"),
+    "C18": ("MIR dominance / must-pass / who-may-write rules over the retry state machine of "
+            "tough::http (parse_response_code, poll_streaming, poll_executing, may_retry, build_request, "
+            "RetryState)",
+            "Decides structurally: statuses classified file-not-found are exactly 403/404/410, 5xx is "
+            "retryable, other errors fatal, and only the file-not-found class becomes "
+            "TransportErrorKind::FileNotFound; a retry request is issued only for the retryable class and "
+            "only under may_retry() == true, which needs tries left (the failed try counted first, "
+            "current_try written only by +1 in increment) and range support or no bytes delivered yet; "
+            "range support is learnt only from Accept-Ranges: bytes; Range: bytes=<next_byte>- exactly "
+            "when next_byte != 0; every delivered chunk advances next_byte. Wire-level ordering, timing "
+            "and server behaviour are not decided.",
+            "DESIGN.md §4 C18"),
 }
 
 NOT_YET = {}
